@@ -7,6 +7,7 @@ Property theorems about `Model/SigCheck.lean` (the validator as it is since the 
 -/
 import HickoryVerif.Model.SigCheck
 import HickoryVerif.Proofs.C05
+import HickoryVerif.Proofs.C05Inj
 
 namespace HickoryVerif.C06
 open HickoryVerif HickoryVerif.Tbs HickoryVerif.SigCheck
@@ -187,6 +188,44 @@ theorem secure_signs_canonical (sigValid : SigOracle) (k : Dnskey) (kp : Proof) 
     · simp only [Outcome.ok.injEq] at hspec
       exact ⟨b, by rw [hb'], by rw [← hspec]; exact hs⟩
   · cases hspec
+
+/-- **Mutation rejects (`mutation_rejects`).**  Let `tbs₀` be the canonical signed data of an original
+RRset `(owner₀, IN, i₀.typeCovered, rds₀)` under RRSIG fields `i₀`, and assume of the signature
+oracle what unforgeability gives: under the presented key, the presented signature is accepted for
+`tbs₀` only.  If `verify_rrset_with_dnskey` says Secure for a presented RRSIG / RRset, then the
+presented RRSIG fields equal the original ones (type covered, algorithm, Labels, original TTL,
+expiration, inception, key tag, signer up to letter case), the presented records have the same *set*
+of canonical RDATA as the original RRset, and the same (lower-cased, wildcard-reduced) owner.
+Contrapositive: altering any signed field or bit of the records or of the RRSIG never yields Secure. -/
+theorem mutation_rejects (sigValid : SigOracle) (k : Dnskey) (kp : Proof) (sig : Rrsig)
+    (keyName : Name) (keyType : Nat) (records : List Record) (now : Nat) (ttl : Option Nat)
+    (hnow : now < M) (hinc : sig.input.inception < M) (hexp : sig.input.expiration < M)
+    (hb : C04.Bounded keyName)
+    (i0 : SigInput) (owner0 : Name) (rds0 : List RData) (tbs0 : Bytes)
+    (h0 : Spec.signedData i0 owner0 1 rds0 = some tbs0)
+    (horacle : ∀ tbs, sigValid k tbs sig.sig = true → tbs = tbs0)
+    (hi : C05.FieldsInRange sig.input) (hi0 : C05.FieldsInRange i0)
+    (hb0 : C04.Bounded owner0) (hs : C04.Bounded sig.input.signer) (hs0 : C04.Bounded i0.signer)
+    (hlen : ∀ c, Spec.canonicalRdatas ((collect keyName 1 sig.input records).map (·.data)) = some c →
+      ∀ rd ∈ c, rd.length < 65536)
+    (hlen0 : ∀ c, Spec.canonicalRdatas rds0 = some c → ∀ rd ∈ c, rd.length < 65536)
+    (h : verifyRrsetWithDnskey sigValid k kp sig keyName keyType records now = .ok (.secure, ttl)) :
+    (sig.input.typeCovered = i0.typeCovered ∧ sig.input.algorithm = i0.algorithm ∧
+     sig.input.numLabels = i0.numLabels ∧ sig.input.originalTtl = i0.originalTtl ∧
+     sig.input.expiration = i0.expiration ∧ sig.input.inception = i0.inception ∧
+     sig.input.keyTag = i0.keyTag ∧
+     sig.input.signer.labels.map Name.lowerLabel = i0.signer.labels.map Name.lowerLabel) ∧
+    ∃ c c0, Spec.canonicalRdatas ((collect keyName 1 sig.input records).map (·.data)) = some c ∧
+      Spec.canonicalRdatas rds0 = some c0 ∧ Spec.sortDistinct c = Spec.sortDistinct c0 ∧
+      (Spec.sortDistinct c ≠ [] →
+        Spec.signedOwner keyName sig.input.numLabels = Spec.signedOwner owner0 i0.numLabels) := by
+  obtain ⟨tbs, htbs, hacc⟩ := secure_signs_canonical sigValid k kp sig keyName keyType records now ttl
+    hnow hinc hexp hb h
+  have htbs0 := horacle tbs hacc
+  subst htbs0
+  obtain ⟨hf, c, c0, hc, hc0, hsd, hown⟩ := C05.signedData_injective sig.input i0 keyName owner0 1 1 _ rds0 tbs
+    hi hi0 (by decide) (by decide) hb hb0 hs hs0 hlen hlen0 htbs h0
+  exact ⟨hf, c, c0, hc, hc0, hsd, fun hne => (hown hne).1⟩
 
 /-! ### `verify_rrsig_with_keys` -/
 
@@ -587,6 +626,34 @@ example :
       [recA 3600 [10, 0, 0, 1]] 1000 = .error .bogus ∧
     verifyRrsetWithDnskey acceptAll key0 .insecure sig0 nameA 1 [recA 3600 [10, 0, 0, 1]] 1000
       = .error .insecure := by
+  decide
+
+/-- an oracle that accepts exactly the signed data of `recs` under `sig0` (what unforgeability gives
+for a signature made over that RRset) -/
+def acceptOnly (recs : List Record) : SigOracle :=
+  fun _ tbs _ => tbsImpl nameA 1 sig0.input recs == .ok tbs
+
+/-- `mutation_rejects` / `secure_signs_canonical` on concrete values: with a signature over the RRset
+`{10.0.0.1, 10.0.0.2}`, presenting the records in another order, with a duplicate, with other
+received TTLs or another owner letter case is still Secure (same canonical set); a flipped address
+bit, a missing or an extra record, or an altered RRSIG field (original TTL, expiration) is not -/
+example :
+    let signed := [recA 3600 [10, 0, 0, 1], recA 3600 [10, 0, 0, 2]]
+    let o := acceptOnly signed
+    verifyRrsetWithDnskey o key0 .secure sig0 nameA 1 signed 1000 = .ok (.secure, some 10) ∧
+    verifyRrsetWithDnskey o key0 .secure sig0 nameA 1
+      [recA 7 [10, 0, 0, 2], recA 3600 [10, 0, 0, 1], recA 60 [10, 0, 0, 2]] 1000 = .ok (.secure, some 7) ∧
+    verifyRrsetWithDnskey o key0 .secure sig0 nameA 1
+      [⟨⟨[[65]], true⟩, 1, 1, 3600, .a [10, 0, 0, 1]⟩, recA 3600 [10, 0, 0, 2]] 1000 = .ok (.secure, some 10) ∧
+    verifyRrsetWithDnskey o key0 .secure sig0 nameA 1
+      [recA 3600 [10, 0, 0, 1], recA 3600 [10, 0, 0, 3]] 1000 = .error .bogus ∧
+    verifyRrsetWithDnskey o key0 .secure sig0 nameA 1 [recA 3600 [10, 0, 0, 1]] 1000 = .error .bogus ∧
+    verifyRrsetWithDnskey o key0 .secure sig0 nameA 1
+      (recA 3600 [10, 0, 0, 9] :: signed) 1000 = .error .bogus ∧
+    verifyRrsetWithDnskey o key0 .secure { sig0 with input := { sig0.input with originalTtl := 3601 } }
+      nameA 1 signed 1000 = .error .bogus ∧
+    verifyRrsetWithDnskey o key0 .secure { sig0 with input := { sig0.input with expiration := 1011 } }
+      nameA 1 signed 1000 = .error .bogus := by
   decide
 
 /-- key-tag collision cap (`MAX_KEY_TAG_COLLISIONS = 2`): the third key with the same tag is never
